@@ -344,6 +344,7 @@ func VerifC03Params() {
 	mi := vI64("maxItems")
 	vAssume(mi >= 0)
 	hasMI := vBool2("hasMaxItems")
+	hasEnum := vBool2("hasEnum")
 	leaf := func(cv *spec.CommonValidations, ss *spec.SimpleSchema, typ string) {
 		ss.Type = typ
 		if (typ == "integer" || typ == "number") && hasMax {
@@ -361,15 +362,24 @@ func VerifC03Params() {
 		if hasDefault {
 			p.Default = "d"
 		}
+		if hasEnum {
+			p.Enum = []interface{}{"d", "e"}
+		}
 	case 1:
 		leaf(&p.CommonValidations, &p.SimpleSchema, "integer")
 		if hasDefault {
 			p.Default = 3
 		}
+		if hasEnum {
+			p.Enum = []interface{}{3, 4}
+		}
 	case 2:
 		leaf(&p.CommonValidations, &p.SimpleSchema, "number")
 	case 3:
 		p.Type = "boolean"
+		if hasEnum {
+			p.Enum = []interface{}{true}
+		}
 	case 4, 5:
 		p.Type = "array"
 		if hasMI {
@@ -433,6 +443,10 @@ func VerifC03Params() {
 		if hasML && gp.MaxLength != nil {
 			vAssert(*gp.MaxLength == ml && gp.HasValidations, "maxLength changed or not validated")
 		}
+	}
+	if hasEnum && (shape == 0 || shape == 1 || shape == 3) {
+		vAssert(len(gp.Enum) == len(p.Enum), "the enum of a parameter is lost")
+		vAssert(gp.HasValidations, "a parameter restricted by an enum is planned without validation")
 	}
 	vAssert((gp.Converter != "") == (gp.Formatter != ""), "client formatter and server converter tables disagree for this type")
 	if shape >= 4 {
